@@ -1,5 +1,6 @@
 import Cppcms.C08.Lemmas
 import Cppcms.C08.BuddyLemmas
+import Cppcms.C08.Sim
 /-!
 # C08 — property theorems
 
@@ -157,6 +158,17 @@ theorem stats_match_history (limit : Nat) (sl : Option Nat) (ops : List Op) :
     cases alookup k s.primary <;> simp
   · intro k c hc; simp [abs, hc, toEntry]
 
+/-- **Answers and counts are those implied by the history under the eviction rule.**
+`Ref` (`Spec.lean`) is the reference cache written from the property text: entries in recency order;
+before a store, while `limit` or more entries are held, drop the expired entry with the smallest
+(deadline, store sequence number), else the least recently used one.  Without memory pressure
+(thread back-end, or a process-shared cache whose allocator never reports low memory) the concrete
+model of `mem_cache` gives, after every history, the same answer as the reference to every
+operation — every fetch result and the `stats` counts. -/
+theorem matches_reference (limit : Nat) (ops : List Op) (hq : ∀ o ∈ ops, o.quiet) (op : Op) (hqo : op.quiet) :
+    (step (reach limit none ops) op).2 = ((refRun { limit := limit } ops).step op).2 :=
+  (sim_step (sim_run (sim_init limit) rfl ops hq) ((config_run _ ops).2.trans rfl) op hqo).2
+
 /-! ## non-vacuity -/
 
 private def ka : Key := [97]
@@ -178,6 +190,14 @@ example : victim (reach 2 none (h₃.take 3)) 1002 = some ka ∧ victim (reach 2
 example : (reach 0 (some 100) [.store 1000 ka [1] [] 1100, .store 1000 kb [2] [] 1100 none { lowMem := [true] }]).lru = [kb] := by
   decide
 example : touched (reach 2 none (h₂.take 2)) (.fetch 1000 ka) = [ka] := by decide
+-- the reference cache on the same histories (independent definitions): same victims, same counts
+example : ((refRun { limit := 2 } h₂).step .stats).2 = .stats 2 2 ∧
+    ((refRun { limit := 2 } h₂).step (.fetch 1000 kb)).2 = .miss ∧
+    (refRun { limit := 2 } h₃).entries.map (·.key) = [kc, kb] := by decide
+example : ∀ o ∈ h₂, o.quiet := by
+  intro o h
+  simp only [h₂, List.mem_cons, List.not_mem_nil, or_false] at h
+  rcases h with h | h | h | h <;> subst h <;> simp [Op.quiet]
 
 /-! ## buddy allocator: memory of freed blocks is released
 
@@ -211,6 +231,14 @@ theorem free_all_restores (usable : Nat) (ops : List BOp) (a : Arena)
   obtain ⟨hs, hn⟩ := Arena.run_spec hrun
   exact Arena.eq_of_skeleton_allFree hs (Arena.allFree_of_noUsed (hn (init_normal usable)) hnone)
     (initChunks_allFree 64 0 usable)
+
+/-- the address `get_buddy` computes (`p_len ^ p_ptr`, generated expression) for a block of order `k`
+with even index is its right neighbour of the same order, for one with odd index its left neighbour:
+the two halves of the enclosing block of order `k+1` — the sibling in the tree model -/
+theorem buddy_address_is_sibling (q k : Nat) :
+    Gen.buddyOf (2 ^ k) ((2 * q) * 2 ^ k) = (2 * q + 1) * 2 ^ k ∧
+    Gen.buddyOf (2 ^ k) ((2 * q + 1) * 2 ^ k) = (2 * q) * 2 ^ k :=
+  ⟨Buddy.xor_sibling_even q k, Buddy.xor_sibling_odd q k⟩
 
 /-- every block `malloc` hands out is at least of the smallest order the allocator manages
 (`2^minBits = 2·alignment ≥ sizeof(struct page)`): its header and free-list node fit inside it.
